@@ -54,6 +54,14 @@ ASSUMPTIONS = [
     "no Pillow in the sandbox: DCT data is compared byte for byte, CMYK/JPX conversions are outside the property",
 ]
 STATEMENT_STATUS = {
+    "C18_inline_scan_total": "proved (every input, every hint: consumed = body E I ws | body E I at end; data = finish(body), a prefix of body)",
+    "C18_inline_scan_ws_rule": "proved (any separator, also none, after a body without marker whose last byte is not E/I)",
+    "C18_inline_scan_pseof": "proved (no marker and not ending in EI: PSEOF)",
+    "C18_inline_scan_norestart_cex": "proved (E directly in front of EI hides the marker: limit of the rule)",
+    "C18_abbrev_tables": "proved on key tuples / filter / colour space literals regenerated from layout.py, pdftypes.py, pdfinterp.py, pdfcolor.py",
+    "C18_eos_both_keys": "proved (end marker independent of the spelling /F | /Filter; fix 964c0ea)",
+    "C18_branch_table": "proved (decision table of export_image over plausibility, filters, bits, colour space: total, rows disjoint)",
+    "C18_export_by_branch": "proved (export_image = what the selected row does; tied by spying on the _save_* calls)",
     "C18_bmp_rt": "proved (gray-8, RGB-8, 1-bit; all w,h >= 1 within BMP limits; any lossless filter list; any listing)",
     "C18_bmp_rt_pixelwise / C18_samples_pixelwise": "proved (same, against the index-based meaning of samples)",
     "C18_bmp_pinned_cex": "proved counter-example for the pinned writer (padding, R/B order)",
@@ -204,6 +212,23 @@ def bits_of(img) -> int:
     return img.get("bits", 1 if img["kind"] == "bit1" else 8)
 
 
+LAST_BRANCHES: List[Optional[str]] = []
+_BRANCH_NAME = {"_save_jpeg": "jpeg", "_save_jpeg2000": "jpx", "_save_jbig2": "jbig2", "_save_bytes": "bytes", "_save_raw": "raw"}
+
+
+def _branch_of_calls(calls, returned: bool) -> Optional[str]:
+    """Name of the export_image branch from the recorded `_save_*` calls (None: an exception before any branch)."""
+    if len(calls) > 1:
+        return "several:" + ",".join(c[0] for c in calls)
+    if not calls:
+        return "undecoded" if returned else None
+    meth, a = calls[0]
+    if meth == "_save_bmp":
+        # _save_bmp(image, width, height, bytes_per_line, bits)
+        return "bmp%d bpl=%d depth=%d" % (a[4], a[3], a[4])
+    return _BRANCH_NAME[meth]
+
+
 def export_direct(imgs: List[Dict[str, Any]], rng=None, preexisting: Optional[List[str]] = None):
     """ImageWriter.export_image on LTImage objects built directly.  Returns
     [(name | None, file bytes | None, exception name | None)] in order, plus the final directory listing."""
@@ -218,14 +243,29 @@ def export_direct(imgs: List[Dict[str, Any]], rng=None, preexisting: Optional[Li
             with open(os.path.join(out, n), "wb") as fp:
                 fp.write(b"old")
         iw = ImageWriter(out)
+        # round 6: which `_save_*` method export_image selects (and the arguments of `_save_bmp`) is recorded per image
+        calls: List[Any] = []
+        LAST_BRANCHES.clear()
+
+        def _spy(meth, orig):
+            def w(*a, **k):
+                calls.append((meth, a))
+                return orig(*a, **k)
+            return w
+        for meth in ("_save_jpeg", "_save_jpeg2000", "_save_jbig2", "_save_bmp", "_save_bytes", "_save_raw"):
+            setattr(iw, meth, _spy(meth, getattr(iw, meth)))
         for img in imgs:
+            calls.clear()
+            LAST_BRANCHES.append(None)
             try:
                 st = make_stream(img, rng)
                 lt = LTImage(img["name"], st, (0, 0, 1, 1))
                 name = iw.export_image(lt)
+                LAST_BRANCHES[-1] = _branch_of_calls(calls, True)
                 with open(os.path.join(out, name), "rb") as fp:
                     res.append((name, fp.read(), None))
             except Exception as e:  # noqa: BLE001
+                LAST_BRANCHES[-1] = _branch_of_calls(calls, False)
                 res.append((None, None, type(e).__name__))
         listing = sorted(os.listdir(out))
         untouched = all(open(os.path.join(out, n), "rb").read() == b"old" for n in preexisting or [])
@@ -545,9 +585,15 @@ def struct_depth(blob: bytes) -> int:
 
 def check_export_direct(ctx: C.Ctx, imgs: List[Dict[str, Any]], pre: List[str], lines, impl, inputs, tag="gen"):
     res, listing, untouched = export_direct(imgs, ctx.rng, pre)
+    branches = list(LAST_BRANCHES)
     existing = list(pre)
     names = []
-    for img, (name, blob, exc) in zip(imgs, res):
+    for (img, (name, blob, exc)), br in zip(zip(imgs, res), branches):
+        if br is not None:
+            lines.append("branch %s %s %d %d %d" % (flt_code(img.get("filters", [])), cs_wire(img), bits_of(img), img["w"], img["h"]))
+            impl.append(br)
+            inputs.append(("branch", {"images": [img], "pre": []}))
+            ctx.branch("branch:" + br.split(" ")[0])
         data = bytes.fromhex(img["data"])
         nontriv = len(set(data)) > 1
         ctx.case(("exp", img["kind"], img["w"], img["h"], img["data"], tuple(img.get("filters", [])), img["name"]),
@@ -601,6 +647,69 @@ def check_export_direct(ctx: C.Ctx, imgs: List[Dict[str, Any]], pre: List[str], 
                            {"area": "names"}))
 
 
+_PDF_FILTER = {"Flate": "FlateDecode", "DCT": "DCTDecode", "JPX": "JPXDecode", "JBIG2": "JBIG2Decode", "LZW": "LZWDecode",
+               "CCF": "CCITTFaxDecode", "A85": "ASCII85Decode", "AHx": "ASCIIHexDecode", "RL": "RunLengthDecode"}
+_TABLE_FILTERS = [[], ["Flate"], ["Flate", "Flate"], ["DCT"], ["Flate", "DCT"], ["DCT", "Flate"], ["JPX"], ["A85", "JPX"],
+                  ["JPX", "Flate"], ["JBIG2"], ["JBIG2", "Flate"], ["JBIG2", "DCT"], ["Flate", "JBIG2"], ["LZW"], ["CCF"],
+                  ["A85", "Flate"]]
+_TABLE_CS = [None, ["DeviceGray"], ["DeviceRGB"], ["G"], ["RGB"], ["DeviceCMYK"], ["Indexed", "DeviceRGB", 1], ["Lab"],
+             ["DeviceGray", "DeviceRGB"], []]
+_TABLE_GEOM = [(1, 3, 2), (2, 3, 2), (8, 3, 2), (8, 1, 1), (16, 2, 1), (32, 1, 1), (33, 1, 1), (8, 0, 1), (1, 2 ** 31, 1)]
+
+
+def run_branch_table(ctx: C.Ctx, lines, impl, inputs) -> None:
+    """Round 6: the branch selection of export_image alone, over the whole cross product filters x colour space x
+    (bits, w, h), with ImageMask / Decode entries thrown in (the code does not look at them): the `_save_*` methods are
+    replaced by recording stubs, so nothing is decoded and JPX / JBIG2 / Pillow branches are reachable."""
+    from pdfminer.image import ImageWriter
+    from pdfminer.layout import LTImage
+    from pdfminer.pdftypes import PDFStream
+    d = tempfile.mkdtemp(prefix="c18t_")
+    try:
+        iw = ImageWriter(os.path.join(d, "out"))
+        calls: List[Any] = []
+
+        def _stub(meth):
+            def w(*a, **k):
+                calls.append((meth, a))
+                return "stub"
+            return w
+        for meth in ("_save_jpeg", "_save_jpeg2000", "_save_jbig2", "_save_bmp", "_save_bytes", "_save_raw"):
+            setattr(iw, meth, _stub(meth))
+        combos = [(f, c, g) for f in _TABLE_FILTERS for c in _TABLE_CS for g in _TABLE_GEOM]
+        if ctx.tier == "quick" and ctx.boost == 1:
+            combos = [x for i, x in enumerate(combos) if i % 2 == ctx.rng.randrange(2) or x[0] in (["JPX"], ["JBIG2"])]
+        for k, (flt, cs, (bits, w, h)) in enumerate(combos):
+            attrs: Dict[str, Any] = {"Width": w, "Height": h, "BitsPerComponent": bits}
+            if cs is not None:
+                vals = [(_lit(x) if isinstance(x, str) else x) for x in cs]
+                attrs["ColorSpace"] = vals[0] if len(vals) == 1 and k % 3 == 0 else vals
+            if flt:
+                attrs["Filter"] = _lit(_PDF_FILTER[flt[0]]) if len(flt) == 1 and k % 2 == 0 else [_lit(_PDF_FILTER[f]) for f in flt]
+            if k % 5 == 0:
+                attrs["ImageMask"] = True
+            if k % 7 == 0:
+                attrs["Decode"] = [1, 0]
+            st = PDFStream(attrs, b"")
+            st.data = b"\x01\x02\x03"          # already "decoded": the stubs never look at it
+            calls.clear()
+            try:
+                iw.export_image(LTImage("T%d" % (k % 3), st, (0, 0, 1, 1)))
+                br = _branch_of_calls(calls, True)
+            except Exception as e:  # noqa: BLE001
+                br = "E:" + type(e).__name__
+            img = {"kind": "other", "filters": flt, "cslist": cs, "bits": bits, "w": w, "h": h, "name": "T", "data": "010203",
+                   "place": "xobj", "domain": False}
+            ctx.case(("branchtable", tuple(flt), str(cs), bits, w, h), True, branch="branch-table")
+            ctx.branch("branch:" + br.split(" ")[0])
+            lines.append("branch %s %s %d %d %d" % (flt_code(flt), cs_wire(img), bits, w, h))
+            impl.append(br)
+            inputs.append(("branch", {"table": True, "filters": flt, "cs": cs, "bits": bits, "w": w, "h": h,
+                                      "imagemask": k % 5 == 0, "decode": k % 7 == 0}))
+    finally:
+        shutil.rmtree(d, ignore_errors=True)
+
+
 def run_export(ctx: C.Ctx) -> None:
     rng = ctx.rng
     lines: List[str] = []
@@ -608,6 +717,7 @@ def run_export(ctx: C.Ctx) -> None:
     inputs: List[Any] = []
     n = ctx.n(1200, 20000)
     idx = 0
+    run_branch_table(ctx, lines, impl, inputs)
     # systematic part: every kind x every row-byte residue x unfiltered/filtered
     for kind in ("gray8", "rgb8", "bit1"):
         for w in (1, 2, 3, 4, 5, 7, 8, 9, 16, 17, 33):
@@ -812,10 +922,12 @@ def fix_inline(rng, img) -> None:
         img["extras"] = IL.random_extras(rng)
     if img["kind"].startswith("jpeg"):
         img["filters"] = ["A85", "DCT"] if "A85" in img["filters"] else (["AHx", "DCT"] if rng.random() < 0.5 else ["DCT"])
+    if (img.get("filters") or [""])[0] == "A85" and rng.random() < 0.6:
+        img["a85_wrap"] = rng.choice([1, 2, 3, 4, 5, 16])
     for _ in range(50):
         payload = IL.encode_image(img, None)
         first = (img.get("filters") or [""])[0]
-        a85_marker = first == "A85" and IL.filter_key_short(img)      # do_keyword looks at /F only
+        a85_marker = first == "A85"      # do_keyword looks at /F and /Filter (round 6 fix; before: /F only)
         target = b"~>" if a85_marker else b"EI"
         body = payload[:-2] if a85_marker else payload
         if not IL.has_marker(body + bytes.fromhex(img["sep"]), target) and not \
@@ -1121,6 +1233,67 @@ def check_inline_case(ctx: C.Ctx, case, in_domain: bool, lines, impl, inputs) ->
             ctx.fail(C.Failure(v2[0], {"mode": "inline", "case": small}, v2[1], v2[2], v2[3]))
 
 
+# ---- round 6: the end-marker rule on arbitrary scanner input (C18_inline_scan_total / _ws_rule / _pseof)
+
+_WS = b" \t\n\r\x0b\x0c"
+SCAN_BODIES = [b"", b"a", b"E", b"I", b"EI", b"EIx", b"xEIx", b"EIEI", b"EE", b"aEIb E", b"\x00EI\x00", b"EI\x00 ", b"E I", b"aE",
+               b"aI", b"abEIcdEI", b"~>", b"\r", b"\n", b"\r\n", b"E\n", b"I\r", b"EI\xff", b"\xffEIEIEIx", b"EEEI", b"EIE"]
+SCAN_SEPS = [b"", b" ", b"\t", b"\n", b"\r", b"\r\n", b"\x00", b"\x0c", b"\x0b", b"  ", b"\n\n", b"x"]
+SCAN_TAILS = [b"EI Q", b"EI\nQ", b"EI\tq EI ", b"EI", b"EI\x00Q", b"EIQ", b"", b"E", b"EI\rEI\n", b"EI\x0cBT"]
+
+
+def scan_oracle(inp: bytes, reply: str) -> Optional[str]:
+    """What holds for EVERY input (theorem C18_inline_scan_total), evaluated on the implementation's reply."""
+    if not reply.startswith("OK "):
+        return None
+    _, dhex, n = reply.split(" ")
+    d = b"" if dhex == "-" else bytes.fromhex(dhex)
+    n = int(n)
+    if n > len(inp):
+        return "consumed more bytes than the content stream has"
+    used = inp[:n]
+    if len(used) >= 3 and used[-3:-1] == b"EI" and used[-1:] in [bytes((c,)) for c in _WS]:
+        body = used[:-3]
+    elif n == len(inp) and used.endswith(b"EI"):
+        body = used[:-2]
+    else:
+        return "the bytes consumed for an inline image do not end in the end marker"
+    if not body.startswith(d):
+        return "inline image data is not a prefix of the bytes in front of the end marker"
+    if len(body) - len(d) > 2:
+        return "more than one end-of-line was cut from the inline image data"
+    return None
+
+
+def check_scan_input(ctx: C.Ctx, inp: bytes, hint: Optional[int], bufsiz: int, lines, impl, inputs) -> None:
+    reply = impl_inline(inp, 0, b"EI", bufsiz, hint)
+    ctx.case(("scan", inp, hint, bufsiz), len(inp) > 4, branch="scan:" + reply.split(" ")[0])
+    if b"EI" in inp[:-3]:
+        ctx.branch("scan:EI-bytes-inside")
+    lines.append("inlinelen 4549 %s %s" % ("-" if hint is None else hint, C.hx(inp)))
+    impl.append(reply)
+    inputs.append(("inlinelen", {"mode": "scan", "input": inp.hex(), "hint": hint, "bufsiz": bufsiz}))
+    bad = scan_oracle(inp, reply)
+    if bad is not None:
+        ctx.fail(C.Failure(bad, {"mode": "scan", "input": inp.hex(), "hint": hint, "bufsiz": bufsiz},
+                           "body E I ws consumed, data a prefix of body", reply, {"area": "scan"}))
+
+
+def run_scan_rule(ctx: C.Ctx, lines, impl, inputs) -> None:
+    rng = ctx.rng
+    combos = [(b, s_, t) for b in SCAN_BODIES for s_ in SCAN_SEPS for t in SCAN_TAILS]
+    if ctx.tier == "quick" and ctx.boost == 1:
+        combos = rng.sample(combos, 900)
+    for b, s_, t in combos:
+        inp = b + s_ + t
+        hint = rng.choice([None, None, len(b), len(b), len(b) + 1, max(0, len(b) - 1), 0, 1000])
+        check_scan_input(ctx, inp, hint, rng.choice([1, 2, 3, 5, 8, 4096]), lines, impl, inputs)
+        ctx.branch("scan:sep=" + (s_.hex() or "none"))
+    for _ in range(ctx.n(600, 20000)):
+        inp = bytes(rng.choice(b"EEII \n\r\tx\x00") for _ in range(rng.randint(0, 14)))
+        check_scan_input(ctx, inp, rng.choice([None, rng.randint(0, 12)]), rng.choice([1, 2, 3, 4096]), lines, impl, inputs)
+
+
 def run_inline(ctx: C.Ctx) -> None:
     rng = ctx.rng
     lines: List[str] = []
@@ -1132,6 +1305,7 @@ def run_inline(ctx: C.Ctx) -> None:
         wild = i % 5 == 4
         case = gen_inline_case(rng, not wild)
         check_inline_case(ctx, case, not wild, lines, impl, inputs)
+    run_scan_rule(ctx, lines, impl, inputs)
     # ASCII85 end marker `~>` (the tie only: the scanner is the same function with another target)
     for i in range(ctx.n(600, 10000)):
         body = bytes(rng.choice(b"~>ab!z \n\rEI") for _ in range(rng.choice([0, 1, 3, 9, 40])))
@@ -1362,6 +1536,10 @@ def replay(ctx: C.Ctx, doc, from_corpus: bool = False) -> None:
     elif mode == "inline":
         lines, impl, inputs = [], [], []
         check_inline_case(ctx, inp["case"], True, lines, impl, inputs)
+        ask_and_compare(ctx, lines, impl, inputs)
+    elif mode == "scan":
+        lines, impl, inputs = [], [], []
+        check_scan_input(ctx, bytes.fromhex(inp["input"]), inp.get("hint"), inp.get("bufsiz", 4096), lines, impl, inputs)
         ask_and_compare(ctx, lines, impl, inputs)
     elif mode == "align32":
         from pdfminer import image as I
